@@ -180,9 +180,10 @@ class Extracted:
         self.rule_hits = {}
         self.dropped = {}
         self.linemap = []     # (gen_line_start, gen_line_end, file, src_line_start, label)
+        self.canaries = []
 
 
-def expand_template(tpl_text, repo, tpl_name='unit'):
+def expand_template(tpl_text, repo, tpl_name='unit', canary=False):
     """Return (generated_text, Extracted)."""
     ex = Extracted()
     files = {}
@@ -299,8 +300,14 @@ def expand_template(tpl_text, repo, tpl_name='unit'):
                 if k < 1 or k > len(lp):
                     raise LostAnchor('%s: loop #%d not found (%d loops)' % (what, k, len(lp)))
                 edits.append((lp[k - 1], '\n' + text + '\n'))
+                if canary:
+                    edits.append((lp[k - 1] + 1, ' assert(false); /*CANARY loop %d of %s*/ ' % (k, anchor.replace('*/', ''))))
+                    ex.canaries.append('loop %d of %s' % (k, anchor))
             ex.rule_hits.setdefault('loops:' + anchor, len(lp))
-        for pos, text in sorted(edits, key=lambda e: -e[0]):
+        if canary and kind == 'fn' and body.startswith('{') and not opts.get('nocanary'):
+            edits.append((1, ' assert(false); /*CANARY fn %s*/ ' % anchor.replace('*/', '')))
+            ex.canaries.append('fn ' + anchor)
+        for pos, text in sorted(edits, key=lambda e: (-e[0], 0 if 'CANARY' in e[1] else 1)):
             body = body[:pos] + text + body[pos:]
         if kind == 'fn':
             head, ret, where = _split_sig(sig)
